@@ -212,6 +212,31 @@ def sweep(run, gen, focus, thorough, crate=None):
                 run.violation("failing-input", {"kind": "float-literal-rounded", "mnemonic": ob["mnemonic"], "commands": ob["lean_cmds"]},
                               f"`{req[3:]}` is accepted and assembles to {hex(w)}: {txt} is not one of the 256 representable immediates, it was rounded to one instead of being rejected",
                               {"stream": "plug", "input": [req], "impl": [la]})
+    # ---------------- a float literal under signs and parentheses is still the number it denotes: `--0.125` = `-(-0.125)` = 0.125
+    if focus in ("C04", "both"):
+        sreqs, smeta = [], []
+        for ob in obs:
+            if ob["ty"] != "f32":
+                continue
+            f = fs[ob["form"]]
+            for mag in ("0.125", "31.0", "1.9375"):
+                for spelling, ref in ((f"--{mag}", mag), (f"-(-{mag})", mag), (f"- - -{mag}", f"-{mag}"), (f"-(-(-{mag}))", f"-{mag}"), (f"(-{mag})", f"-{mag}"), (f"-({mag})", f"-{mag}")):
+                    sreqs.append("cl ; .arch aarch64 ; " + f.render(dict(ob["vals"]), runtime={ob["idx"]: spelling}))
+                    sreqs.append("cl ; .arch aarch64 ; " + f.render(dict(ob["vals"]), runtime={ob["idx"]: ref}))
+                    smeta.append((ob, spelling, ref))
+        sans = plug(sreqs)
+        seen_s = set()
+        for k, (ob, spelling, ref) in enumerate(smeta):
+            stats["float_literals_signed"] = stats.get("float_literals_signed", 0) + 1
+            ws, wr = word_of(sans[2 * k]), word_of(sans[2 * k + 1])
+            if ws == "dynamic" or wr == "dynamic" or sans[2 * k].startswith("panic"):
+                continue
+            if ws != wr and (ob["n"], spelling[:3]) not in seen_s:
+                seen_s.add((ob["n"], spelling[:3]))
+                run.violation("failing-input", {"kind": "float-literal-sign", "mnemonic": ob["mnemonic"], "commands": ob["lean_cmds"], "spelling": spelling},
+                              f"`{sreqs[2 * k][3:]}` {'assembles to ' + hex(ws) if ws is not None else 'is rejected'}, but the same number written `{ref}` "
+                              f"{'assembles to ' + hex(wr) if wr is not None else 'is rejected'}",
+                              {"stream": "plug", "input": [sreqs[2 * k], sreqs[2 * k + 1]], "impl": [sans[2 * k], sans[2 * k + 1]]})
     # ---------------- run-time spelling: the real macro through rustc
     cases = []
     for ob in obs:
